@@ -12,13 +12,14 @@ ID = "C16"
 PROPS = ["IsoVerif/Props/C16.lean", "IsoVerif/Props/C16PolyA.lean", "IsoVerif/Props/C16Record.lean",
          "IsoVerif/Props/C16Finder.lean", "IsoVerif/Props/C16MoveRef.lean", "IsoVerif/Props/C16FinderSpec.lean",
          "IsoVerif/Props/C16TailRecord.lean", "IsoVerif/Props/C16Concat.lean", "IsoVerif/Props/C16FinderChar.lean",
-         "IsoVerif/Props/C16CutsN.lean", "IsoVerif/Props/C16TailExons.lean",
+         "IsoVerif/Props/C16CutsN.lean", "IsoVerif/Props/C16TailExons.lean", "IsoVerif/Props/C16Pad.lean",
+         "IsoVerif/Props/C16NoExon.lean",
          # the CIGAR walkers regenerated from the source (Gen/Loops.lean): refinement Gen.f = Model.f + headline theorems over Gen.f
          "IsoVerif/Lemmas/GenBase.lean", "IsoVerif/Lemmas/GenCigar.lean", "IsoVerif/Props/C16Gen.lean"]
 TARGETS = ["IsoVerif.Props.C16", "IsoVerif.Props.C16PolyA", "IsoVerif.Props.C16Record", "IsoVerif.Props.C16Finder",
            "IsoVerif.Props.C16MoveRef", "IsoVerif.Props.C16FinderSpec", "IsoVerif.Props.C16TailRecord",
            "IsoVerif.Props.C16Concat", "IsoVerif.Props.C16FinderChar", "IsoVerif.Props.C16CutsN",
-           "IsoVerif.Props.C16TailExons", "IsoVerif.Lemmas.GenBase", "IsoVerif.Lemmas.GenCigar", "IsoVerif.Props.C16Gen"]
+           "IsoVerif.Props.C16TailExons", "IsoVerif.Props.C16Pad", "IsoVerif.Props.C16NoExon", "IsoVerif.Lemmas.GenBase", "IsoVerif.Lemmas.GenCigar", "IsoVerif.Props.C16Gen"]
 GEN_DEPS = ["Enums", "CigarClasses", "Prims", "LoopsRt", "LoopsCigar", "LoopsCigarOps"]
 LEVEL = "proof"
 RULE = ("exhaustive CIGARs (all 9 operation kinds: <=3 ops x lengths {1,2,3}, 4 ops x {1,2}; 5 ops over 7 kinds and 6 ops "
@@ -900,7 +901,11 @@ def oracle_trim_read(s, seq, cigar, mf):
         return None
     before, rb, cb = vlib.canon(ai.read_exons), vlib.canon(ai.read_blocks), vlib.canon(ai.cigar_blocks)
     finder = PF.PolyAFinder(16, 0.75)
-    pi = finder.detect_polya(a)
+    try:
+        pi = finder.detect_polya(a)
+    except Exception as ex:
+        # the statement quantifies over every CIGAR string: `P` is one of the nine SAM operations (audit C16-G2)
+        return "finder_exception", "%s: %s (CIGAR %s)" % (type(ex).__name__, ex, G.cigar_str(cigar))
     info = [pi.external_polya_pos, pi.external_polyt_pos, pi.internal_polya_pos, pi.internal_polyt_pos]
     try:
         ai.add_polya_info(finder, fixer(mf))
@@ -946,6 +951,34 @@ def soft_clips(cigar):
     return c5, c3
 
 
+def pad_tail_read(rng, three_prime=True):
+    """aligned part ... `P` ... A-rich aligned end + soft-clipped A tail (mirror image for the 5' end): the internal /
+    external tail starts inside the alignment, so the walk of move_ref_coord_alogn_alignment crosses the `P`"""
+    a, b, clip = rng.randint(30, 80), rng.randint(4, 30), rng.randint(0, 12)
+    body = "".join(rng.choice("CGT") for _ in range(a))
+    if three_prime:
+        cig = [[G.M, a], [G.P, rng.randint(1, 3)], [G.M, b]] + ([[G.S, clip]] if clip else [])
+        return body + "A" * (b + clip), cig
+    body = "".join(rng.choice("CGA") for _ in range(a))
+    cig = ([[G.S, clip]] if clip else []) + [[G.M, b], [G.P, rng.randint(1, 3)], [G.M, a]]
+    return "T" * (b + clip) + body, cig
+
+
+# records of the pipeline run that are outside `in_sam_domain` or have no exon (audit C16-G1, G3, G5):
+# (name, reference_start, cigar as (code, length) pairs | None, sequence, flag, expectation)
+EXCLUDED_RECORDS = [
+    ("X_20I", 1100, [(G.I, 20)], "C" * 20, 0, "no_row"),                       # zero exons: no aligned operation
+    ("X_30S", 1100, [(G.S, 30)], "C" * 30, 0, "no_row"),
+    ("X_SDI", 1100, [(G.S, 5), (G.D, 3), (G.I, 4)], "C" * 9, 0, "no_row"),
+    ("X_unmapped_placed", 1100, None, "ACGT" * 10, 4, "no_row"),              # reference id + position, no CIGAR
+    # zero-length operations (htslib accepts them): outside the reading rule "lengths >= 1" - the run must finish,
+    # what the row says is not constrained (docs/C16.md 3)
+    ("X_0N", 1100, [(G.M, 60), (G.N, 0), (G.M, 30)], None, 0, "any"),
+    ("X_0Mfirst", 1100, [(G.M, 0), (G.N, 300), (G.M, 90)], None, 0, "any"),
+    ("X_0Mlast", 1100, [(G.M, 90), (G.N, 300), (G.M, 0)], None, 0, "any"),
+]
+
+
 def oracle_pipeline(ctx, reads):
     """reads: [(name, s, seq, cigar)] through the real pipeline (isoquant.py on a synthetic BAM): the run must
     finish and the exons column of read_assignments.tsv must be a non-empty ordered terminal-trimmed part of the
@@ -955,6 +988,11 @@ def oracle_pipeline(ctx, reads):
     ds = synth.simple_dataset(seed=ctx.seed % 1000, n_chroms=1, genes_per_chrom=2, reads_per_tx=3, chrom_len=60000)
     for name, s, seq, cig in reads:
         ds.add_read(name, "chr1", s, G.cigar_str(cig), seq=seq)
+    excluded = EXCLUDED_RECORDS if any(r[0] == "witness" for r in reads) else []
+    for name, s, cig, seq, flag, _ in excluded:
+        if seq is None:
+            seq = "C" * sum(l for k, l in cig if k in (G.M, G.I, G.S, G.EQ, G.X))
+        ds.add_raw_record(name, "chr1", s, cig, flag=flag, mapq=0 if flag & 4 else 60, seq=seq)
     d = P.scratch("isoverif_C16_")
     try:
         paths = ds.write(os.path.join(d, "data"))
@@ -977,7 +1015,11 @@ def oracle_pipeline(ctx, reads):
                 ok = any(exp[i:i + len(got)] == got for i in range(len(exp)))
                 if not ok or not is_sd(got):
                     return "pipeline_exons_vs_sam", "%s: column %s, SAM exons %s" % (name, got, exp)
+        for name, s, cig, seq, flag, expect in excluded:
+            if expect == "no_row" and rows.get(name):
+                return "pipeline_row_for_record_without_exon", "%s: %s" % (name, rows[name][0]["exons"])
         ctx.extra["pipeline_reads_checked"] = seen
+        ctx.extra["pipeline_excluded_records"] = {r[0]: ("row" if rows.get(r[0]) else "no row") for r in excluded}
         return None
     finally:
         shutil.rmtree(d, ignore_errors=True)
@@ -986,6 +1028,10 @@ def oracle_pipeline(ctx, reads):
 def pipeline_reads(ctx):
     rng = ctx.rng
     reads = [("witness", 30000) + G.WITNESS_READ]
+    # a `P` inside the walked tail (audit C16-G2) and one far from it
+    reads.append(("pad_tail3", 30800) + pad_tail_read(rng, True))
+    reads.append(("pad_tail5", 31200) + pad_tail_read(rng, False))
+    reads.append(("pad_far", 31500, "".join(rng.choice("CGT") for _ in range(230)), [[G.M, 30], [G.P, 2], [G.M, 200]]))
     pos = 32000
     for i in range(40):
         seq, cig = (G.block_read(rng) if i % 2 == 0 else G.tailed_read(rng)) if i % 5 else G.overlap_read(rng)
@@ -1022,8 +1068,7 @@ def oracle(ctx, disagreements, broken):
                     if r:
                         ctx.fail(r[0], {"check": "trim_unit", "exons": ex, "info": info, "mf": mf}, r[1])
         elif op in ("record_polya", "find_polya_tail", "find_polyt_head", "find_polya_tail_spec",
-                    "find_polyt_head_spec") and kw.get("seq") \
-                and not any(k == G.P for k, _ in kw["cigar"]):
+                    "find_polyt_head_spec") and kw.get("seq"):
             r = oracle_trim_read(kw["s"], kw["seq"], kw["cigar"], kw.get("mf", 40))
             if r:
                 ctx.fail(r[0], {"check": "trim_read", "s": kw["s"], "seq": kw["seq"], "cigar": kw["cigar"],
@@ -1057,10 +1102,10 @@ def oracle(ctx, disagreements, broken):
     def more_reads():
         yield from read_cases(ctx)
         for _ in range(800 if quick else 8000):      # clip combinations (H S … S H), indels at the alignment ends
-            seq, c = G.finder_read(ctx.rng)
-            if any(k == G.P for k, _ in c):
-                continue                             # the finder raises TypeError on P (modelled; not in the domain)
+            seq, c = G.finder_read(ctx.rng)         # occasional `P`: inside the domain (one of the nine SAM operations)
             yield (ctx.rng.randint(0, 10 ** 6), seq, c)
+        for k in range(60 if quick else 600):        # a `P` inside the part the backward / forward walk visits
+            yield (ctx.rng.randint(0, 10 ** 6),) + pad_tail_read(ctx.rng, k % 2 == 0)
     for s, seq, c in more_reads():
         n += 1
         r = oracle_trim_read(s, seq, c, 40)
